@@ -240,12 +240,27 @@ Definition pkg_ok (p : bytes) : bool :=
   forallb pkg_char p && forallb (fun seg => starts_letter seg) (split_slash [] (map (fun c => if c =? 46 then 47 else c) p)).
 
 (* what a reference may name *)
+Definition names_object (e : entity) (n : bytes) : bool :=
+  existsb (fun s => match s with SObject m _ => bytes_eqb m n | _ => false end) (e_schemas e)
+  || bytes_eqb n (sp_name e "Keys") || bytes_eqb n (sp_name e "Data").
+Definition names_oneof (e : entity) (n : bytes) : bool :=
+  existsb (fun s => match s with SOneof m _ => bytes_eqb m n | _ => false end) (e_schemas e).
+Definition names_enum (e : entity) (n : bytes) : bool :=
+  existsb (fun s => match s with SEnum m _ => bytes_eqb m n | _ => false end) (e_schemas e).
+Definition item_ref_ok (e : entity) (i : ikind) : bool :=
+  match i with
+  | IObject n => names_object e n
+  | IOneof n => names_oneof e n
+  | IEnum n => names_enum e n
+  | _ => true
+  end.
 Definition ref_ok (e : entity) (u : ufield) : bool :=
   match uf_kind u with
-  | KObject n => existsb (fun s => match s with SObject m _ => bytes_eqb m n | _ => false end) (e_schemas e)
-                 || bytes_eqb n (sp_name e "Keys") || bytes_eqb n (sp_name e "Data")
-  | KOneof n => existsb (fun s => match s with SOneof m _ => bytes_eqb m n | _ => false end) (e_schemas e)
-  | KEnum n => existsb (fun s => match s with SEnum m _ => bytes_eqb m n | _ => false end) (e_schemas e)
+  | KObject n => names_object e n
+  | KOneof n => names_oneof e n
+  | KEnum n => names_enum e n
+  | KArray i => item_ref_ok e i
+  | KMap i => item_ref_ok e i
   | _ => true
   end.
 
